@@ -877,7 +877,7 @@ fn families() -> Vec<Scenario> {
     }
     // 3: outage, the retrier gives up, manual retry gate, recovery by manual retry
     v.push(fam(3, 2, o, vec![(K_REG, 0, R_GOOD), (K_REG, 1, R_GOOD), (K_UP, 0, 0), (K_REV, 0, 0), (K_RETRY, 0, 0), (K_REV, 1, 0), (K_SETTLE, 0, 0),
-                             (K_RETRY, 1, 0), (K_REV, 2, 0), (K_UP, 0, 1), (K_RETRY, 0, 0), (K_SETTLE, 0, 0), (K_RETRY, 0, 0)]));
+                             (K_RETRY, 1, 0), (K_REV, 2, 0), (K_UP, 0, 1), (K_RETRY, 0, 0), (K_SETTLE, 0, 0), (K_RETRY, 0, 0), (K_SETTLE, 0, 0)]));
     // 4: outage and recovery while the retrier is running (no user action)
     v.push(fam(4, 1, (6, 30, 1), vec![(K_REG, 0, R_GOOD), (K_UP, 0, 0), (K_REV, 0, 0), (K_REV, 1, 0), (K_SLEEP, 1500, 0), (K_REV, 2, 0), (K_UP, 0, 1), (K_SETTLE, 0, 0)]));
     // 5: outage, give up, automatic retry after the delay once the tower is back
@@ -887,11 +887,12 @@ fn families() -> Vec<Scenario> {
     // 7: subscription error, renewal by the retrier, delivery
     v.push(fam(7, 1, o, vec![(K_REG, 0, R_GOOD), (K_MODE, 0, A_SUBERR), (K_REV, 0, 0), (K_MODE, 0, A_ACCEPT), (K_SETTLE, 0, 0), (K_REV, 1, 0), (K_SETTLE, 0, 0)]));
     // 8: subscription error and the renewal is refused in every way
-    for cls in [R_BADSIG, R_NOTEXT, R_GARBAGE, R_APIERR] {
+    for cls in [R_BADSIG, R_NOTEXT, R_NOTEXT_SLOTS, R_GARBAGE, R_APIERR] {
         v.push(fam(8, 1, o, vec![(K_REG, 0, R_GOOD), (K_MODE, 0, A_SUBERR), (K_REV, 0, 0), (K_SETTLE, 0, 0), (K_MODE, 0, cls + 100), (K_RETRY, 0, 0),
                                  (K_SETTLE, 0, 0), (K_RETRY, 0, 0), (K_SETTLE, 0, 0)]));
     }
     // 9: registration gate: every reply class for a first registration and for a renewal
+    v.push(fam(9, 1, o, vec![(K_REG, 0, R_NOTEXT_SLOTS), (K_REG, 0, R_NOTEXT_SLOTS), (K_REV, 0, 0), (K_REG, 0, R_NOTEXT), (K_REG, 0, R_GOOD), (K_REG, 0, R_NOTEXT_SLOTS), (K_SETTLE, 0, 0)]));
     for cls in [R_BADSIG, R_GARBAGE, R_APIERR, C_DOWN] {
         v.push(fam(9, 1, o, vec![(K_REG, 0, cls), (K_REV, 0, 0), (K_REG, 0, R_GOOD), (K_REG, 0, cls), (K_REG, 0, R_NOTEXT), (K_REV, 1, 0), (K_REG, 0, R_GOOD), (K_SETTLE, 0, 0)]));
     }
@@ -908,9 +909,45 @@ fn families() -> Vec<Scenario> {
     }
     // 12: abandon: while pending / being retried; re-registration
     v.push(fam(12, 2, o, vec![(K_REG, 0, R_GOOD), (K_REG, 1, R_GOOD), (K_UP, 0, 0), (K_REV, 0, 0), (K_ABANDON, 0, 0), (K_REV, 1, 0), (K_SETTLE, 0, 0), (K_UP, 0, 1),
-                              (K_REG, 0, R_GOOD), (K_REV, 2, 0), (K_SETTLE, 0, 0), (K_ABANDON, 1, 0), (K_ABANDON, 1, 0)]));
+                              (K_REG, 0, R_GOOD), (K_REV, 2, 0), (K_SETTLE, 0, 0), (K_ABANDON, 1, 0), (K_ABANDON, 1, 0), (K_SETTLE, 0, 0)]));
     // 13: revocations while the retrier is idle (unreachable): stored, not sent; delivered after the manual retry
     v.push(fam(13, 1, o, vec![(K_REG, 0, R_GOOD), (K_UP, 0, 0), (K_REV, 0, 0), (K_SETTLE, 0, 0), (K_REV, 1, 0), (K_REV, 1, 0), (K_UP, 0, 1), (K_REV, 2, 0), (K_RETRY, 0, 0), (K_SETTLE, 0, 0)]));
+    // 14: a tower proven misbehaving gets nothing more (notification path and retry path); registering with it again while it is down
+    v.push(fam(14, 2, o, vec![(K_REG, 0, R_GOOD), (K_REG, 1, R_GOOD), (K_MODE, 0, A_WRONGKEY), (K_REV, 0, 0), (K_SETTLE, 0, 0), (K_MODE, 0, A_ACCEPT), (K_REV, 1, 0),
+                              (K_RETRY, 0, 0), (K_SETTLE, 0, 0), (K_KILL, 0, 0), (K_START, 0, 0), (K_REV, 2, 0), (K_SETTLE, 0, 0)]));
+    v.push(fam(14, 1, o, vec![(K_REG, 0, R_GOOD), (K_UP, 0, 0), (K_REV, 0, 0), (K_REV, 1, 0), (K_MODE, 0, A_WRONGKEY), (K_UP, 0, 1), (K_SETTLE, 0, 0), (K_MODE, 0, A_ACCEPT),
+                              (K_REV, 2, 0), (K_RETRY, 0, 0), (K_SETTLE, 0, 0)]));
+    v.push(fam(14, 1, o, vec![(K_REG, 0, R_GOOD), (K_MODE, 0, A_WRONGKEY), (K_REV, 0, 0), (K_SETTLE, 0, 0), (K_UP, 0, 0), (K_REG, 0, R_GOOD), (K_UP, 0, 1), (K_MODE, 0, A_ACCEPT),
+                              (K_REV, 1, 0), (K_SETTLE, 0, 0)]));
+    v.push(fam(14, 1, o, vec![(K_REG, 0, R_GOOD), (K_MODE, 0, A_WRONGKEY), (K_REV, 0, 0), (K_SETTLE, 0, 0), (K_UP, 0, 0), (K_REG, 0, R_GOOD), (K_UP, 0, 1), (K_MODE, 0, A_ACCEPT),
+                              (K_REV, 1, 0), (K_SETTLE, 0, 0), (K_MODE, 0, A_WRONGKEY), (K_REV, 2, 0), (K_SETTLE, 0, 0)]));
+    // 15: abandon while the retrier is alive, then register with the same tower again
+    v.push(fam(15, 1, (6, 30, 1), vec![(K_REG, 0, R_GOOD), (K_UP, 0, 0), (K_REV, 0, 0), (K_SLEEP, 1500, 0), (K_ABANDON, 0, 0), (K_UP, 0, 1), (K_REG, 0, R_GOOD), (K_SETTLE, 0, 0), (K_REV, 1, 0), (K_SETTLE, 0, 0)]));
+    v.push(fam(15, 2, (6, 30, 1), vec![(K_REG, 0, R_GOOD), (K_REG, 1, R_GOOD), (K_UP, 0, 0), (K_UP, 1, 0), (K_REV, 0, 0), (K_SLEEP, 1500, 0), (K_ABANDON, 0, 0), (K_UP, 0, 1), (K_REG, 0, R_GOOD),
+                                       (K_SETTLE, 0, 0), (K_REV, 1, 0), (K_SETTLE, 0, 0)]));
+    // 16: registering again with a known tower that does not answer
+    v.push(fam(16, 1, o, vec![(K_REG, 0, R_GOOD), (K_UP, 0, 0), (K_REG, 0, R_GOOD), (K_UP, 0, 1), (K_SETTLE, 0, 0), (K_RETRY, 0, 0), (K_REV, 0, 0), (K_SETTLE, 0, 0)]));
+    // 17: revocations in every retrier state: running, idle, failed (renewal refused), stopped again
+    v.push(fam(17, 1, o, vec![(K_REG, 0, R_GOOD), (K_MODE, 0, A_SUBERR), (K_MODE, 0, 100 + R_BADSIG), (K_REV, 0, 0), (K_SLEEP, 1200, 0), (K_REV, 1, 0), (K_SETTLE, 0, 0), (K_REV, 2, 0),
+                              (K_MODE, 0, A_ACCEPT), (K_MODE, 0, 100 + R_GOOD), (K_SETTLE, 0, 0), (K_RETRY, 0, 0), (K_SETTLE, 0, 0), (K_REV, 3, 0), (K_SETTLE, 0, 0)]));
+    v.push(fam(17, 1, (3, 30, 1), vec![(K_REG, 0, R_GOOD), (K_MODE, 0, A_GARBAGE), (K_REV, 0, 0), (K_SLEEP, 1300, 0), (K_REV, 1, 0), (K_REV, 0, 0), (K_SETTLE, 0, 0), (K_REV, 2, 0), (K_RETRY, 0, 0),
+                                       (K_SLEEP, 600, 0), (K_REV, 3, 0), (K_MODE, 0, A_ACCEPT), (K_SETTLE, 0, 0), (K_RETRY, 0, 0), (K_SETTLE, 0, 0)]));
+    // 18: a tower that answers every retry with garbage / resets / rejections while several appointments are pending: rate of requests
+    for cls in [A_GARBAGE, A_RESET, A_BADSIG, A_APIERR, A_SUBERR] {
+        v.push(fam(18, 1, (4, 30, 1), vec![(K_REG, 0, R_GOOD), (K_UP, 0, 0), (K_REV, 0, 0), (K_REV, 1, 0), (K_REV, 2, 0), (K_REV, 3, 0), (K_MODE, 0, cls), (K_UP, 0, 1), (K_SETTLE, 0, 0),
+                                           (K_MODE, 0, A_ACCEPT), (K_RETRY, 0, 0), (K_SETTLE, 0, 0)]));
+    }
+    // 19: kill while the retrier is delivering a batch
+    for ms in [700, 1100, 1500] {
+        v.push(fam(19, 2, o, vec![(K_REG, 0, R_GOOD), (K_REG, 1, R_GOOD), (K_UP, 0, 0), (K_REV, 0, 0), (K_REV, 1, 0), (K_REV, 2, 0), (K_REV, 3, 0), (K_SETTLE, 0, 0), (K_UP, 0, 1), (K_RETRY, 0, 0),
+                                  (K_SLEEP, ms, 0), (K_KILL, 0, 0), (K_START, 0, 0), (K_SETTLE, 0, 0)]));
+    }
+    // 20: automatic recovery after the auto-retry delay, with a revocation arriving while idle
+    v.push(fam(20, 1, (2, 3, 1), vec![(K_REG, 0, R_GOOD), (K_MODE, 0, A_RESET), (K_REV, 0, 0), (K_SETTLE, 0, 0), (K_REV, 1, 0), (K_MODE, 0, A_ACCEPT), (K_WAKE, 0, 0), (K_REV, 2, 0), (K_SETTLE, 0, 0)]));
+    // 21: abandon around the moment an idle retrier wakes up by itself (auto-retry 3 s; the manager starts it one polling period later)
+    for ms in [600, 1100, 1600, 2100, 2600, 3100] {
+        v.push(fam(21, 1, (2, 3, 1), vec![(K_REG, 0, R_GOOD), (K_UP, 0, 0), (K_REV, 0, 0), (K_SETTLE, 0, 0), (K_SLEEP, ms, 0), (K_ABANDON, 0, 0), (K_SLEEP, 1500, 0), (K_SETTLE, 0, 0)]));
+    }
     v
 }
 
@@ -945,8 +982,12 @@ fn random_scenario(rng: &mut Rng) -> Scenario {
             57..=71 => steps.push((K_SETTLE, 0, 0)),
             72..=77 => steps.push((K_RETRY, t, 0)),
             78..=81 => steps.push((K_ABANDON, t, 0)),
-            82..=87 => steps.push((K_REG, t, *rng.pick(&[R_GOOD, R_GOOD, R_BADSIG, R_NOTEXT, R_GARBAGE]))),
+            82..=87 => steps.push((K_REG, t, *rng.pick(&[R_GOOD, R_GOOD, R_BADSIG, R_NOTEXT, R_NOTEXT_SLOTS, R_GARBAGE, R_APIERR]))),
             88..=92 => {
+                if rng.chance(1, 2) {
+                    // a notification whose handling races with the kill
+                    steps.push((K_REVNOWAIT, next_l, 20 * rng.below(12)));
+                }
                 steps.push((K_KILL, 0, 0));
                 dead = true;
             }
